@@ -5,6 +5,7 @@ import (
 	"fmt"
 	"strings"
 	"sync"
+	"sync/atomic"
 	"testing"
 	"time"
 
@@ -223,7 +224,13 @@ func runC06(c *LCase) (r c06Result) {
 			}
 		}()
 	}
-	launch("Close()", func() { w.W.Close() })
+	atomic.StoreInt64(&stormIters, 0)
+	launch("Close()", func() {
+		if c.Storm > 0 {
+			midStorm(c.Storm * 25)
+		}
+		w.W.Close()
+	})
 	for _, call := range c.Calls {
 		call := call
 		launch(call.String(), func() {
@@ -243,18 +250,7 @@ func runC06(c *LCase) (r c06Result) {
 		r.feats = append(r.feats, "close-during-api-storm")
 		for g := 0; g < c.Storm; g++ {
 			g := g
-			launch(fmt.Sprintf("storm goroutine %d (Add/WatchList/Remove loop)", g), func() {
-				for i := 0; i < 60; i++ {
-					switch (i + g) % 3 {
-					case 0:
-						w.W.Add([]string{"d0", "d1", "u"}[i%3])
-					case 1:
-						w.W.WatchList()
-					default:
-						w.W.Remove([]string{"d1", "u"}[i%2])
-					}
-				}
-			})
+			launch(fmt.Sprintf("storm goroutine %d (Add/WatchList/Remove loop)", g), func() { stormBody(w.W, g) })
 		}
 	}
 	close(start)
